@@ -32,6 +32,9 @@ def build_cell(e, cfg):
         conn = neural.LinearDense((2,), (2,), dt, synapse=syn, delay=delay, batch_size=B)
     elif kind == "direct":
         conn = neural.LinearDirect((2,), dt, synapse=syn, delay=delay, batch_size=B)
+    elif kind == "conv":
+        H, W, kh, kw, Fn = cfg["geom"]
+        conn = neural.Conv2D(H, W, 1, Fn, dt, (kh, kw), synapse=syn, delay=delay, batch_size=B)
     else:
         conn = neural.LinearLateral((2,), dt, synapse=syn, delay=delay, batch_size=B)
     W0 = e.sym(tuple(conn.weight.shape), torch.float32, "W0", lo=-2, hi=2)
@@ -40,22 +43,33 @@ def build_cell(e, cfg):
     if delay is not None:
         steps = cfg["delaysteps"]
         d = torch.tensor(steps, dtype=torch.float32) * dt
-        conn.delay = d.reshape(conn.delay.shape) if kind != "direct" else d.reshape(-1)[:2]
+        if kind == "direct":
+            conn.delay = torch.stack([d[0, 0], d[1, 1]])
+        else:
+            conn.delay = d.reshape(conn.delay.shape)
     conn.updater = conn.defaultupdater(exclude_bias=True, exclude_delay=True) if delay is not None else conn.defaultupdater()
-    neuron = scripted_neuron_class()((2,), dt, B)
+    neuron = scripted_neuron_class()(tuple(conn.outshape), dt, B)
     layer = neural.Serial(conn, neuron)
     return layer, conn, neuron, w0
 
 
-def delay_steps(cfg, o, i):
-    if cfg.get("maxdelay") is None:
-        return 0
-    s = cfg["delaysteps"]
-    if cfg["cell"] == "direct":
-        return [s[0][0], s[1][1]][i]
-    if cfg["cell"] == "lateral" and o == i:
-        return 0
-    return s[o][i]
+def geometry(cfg, conn):
+    """weight index -> the synapses it is shared by: list of (post-neuron index, input index, delay in steps)."""
+    kind = cfg["cell"]
+    s = cfg.get("delaysteps") if cfg.get("maxdelay") is not None else None
+    if kind == "direct":
+        return {(i,): [((i,), (i,), (s[i][i] if s else 0))] for i in range(2)}
+    if kind in ("dense", "lateral"):
+        return {(o, i): [((o,), (i,), (0 if (s is None or (kind == "lateral" and o == i)) else s[o][i]))] for o in range(2) for i in range(2)}
+    H, W, kh, kw, Fn = cfg["geom"]
+    oh, ow = H - kh + 1, W - kw + 1           # stride 1, no padding, no dilation
+    g = {}
+    for f in range(Fn):
+        for i in range(kh):
+            for j in range(kw):
+                d = s[f][0][i][j] if s else 0
+                g[(f, 0, i, j)] = [((f, oy, ox), (0, oy + i, ox + j), d) for oy in range(oh) for ox in range(ow)]
+    return g
 
 
 def trace_closed(events, decay, amp, mode):
@@ -123,17 +137,19 @@ def h_stdp(e, cfg):
     a_pre, a_post = K(math.exp(-dt / HP["tc_pre"])), K(math.exp(-dt / HP["tc_post"]))
     A_pre, A_post = K(abs(lr_post)), K(abs(lr_pre))       # amplitude of the PRE trace is |lr_post| and vice versa
     kind = cfg["cell"]
-    pairs = [(o, i) for o in range(2) for i in range(2)] if kind != "direct" else [(i, i) for i in range(2)]
+    geo = geometry(cfg, conn)
+    pairs = list(geo)
+    inshape = tuple(conn.inshape)
     pre_hist, post_hist = [], []
     pos_acc = {p: [] for p in pairs}
     neg_acc = {p: [] for p in pairs}
     z_post = {(b, p): F(0) for b in range(B) for p in pairs}
     z_pre = {(b, p): F(0) for b in range(B) for p in pairs}
     for t in range(Tn):
-        x = e.sym((B, 2), torch.bool, f"pre{t}", ind=True)
-        y = e.sym((B, 2), torch.bool, f"post{t}", ind=True)
+        x = e.sym((B, *inshape), torch.bool, f"pre{t}", ind=True)
+        y = e.sym((B, *tuple(conn.outshape)), torch.bool, f"post{t}", ind=True)
         neuron.script.append(y)
-        layer(x)
+        layer(x.float() if kind == "conv" else x)
         pre_hist.append(e.read(x)); post_hist.append(e.read(y))
         # reward
         sig = None
@@ -152,27 +168,27 @@ def h_stdp(e, cfg):
         else:
             tr()
         # ---- oracle contributions of this step
-        def arrival(b, o, i, s):
-            s2 = s - delay_steps(cfg, o, i)
-            return num(pre_hist[s2][b, i]) if s2 >= 0 else F(0)
         cpost, cpre = {}, {}
         step_parts = {}
         for b in range(B):
-            for (o, i) in pairs:
-                arr = [arrival(b, o, i, s) for s in range(t + 1)]
-                pst = [num(post_hist[s][b, o]) for s in range(t + 1)]
-                if trainer_kind == "triplet":
-                    xa = trace_closed(arr, K(math.exp(-dt / HP["tc_pre"])), K(abs(lr_post)), mode)
-                    ya = trace_closed(pst, K(math.exp(-dt / HP["tc_post"])), K(abs(lr_pre)), mode)
-                    yb = trace_closed(pst[:-1], K(math.exp(-dt / 40.0)), K(abs(0.3 / lr_post)), mode) if t > 0 else F(0)
-                    xb = trace_closed(arr[:-1], K(math.exp(-dt / 30.0)), K(abs(0.2 / lr_pre)), mode) if t > 0 else F(0)
-                    cpost[b, (o, i)] = T.mul(T.mul(pst[-1], T.add(1, yb)), xa)
-                    cpre[b, (o, i)] = T.mul(T.mul(arr[-1], T.add(1, xb)), ya)
-                else:
-                    xpre = trace_closed(arr, a_pre, A_pre, mode)
-                    xpost = trace_closed(pst, a_post, A_post, mode)
-                    cpost[b, (o, i)] = T.mul(pst[-1], xpre)
-                    cpre[b, (o, i)] = T.mul(arr[-1], xpost)
+            for p in pairs:
+                tot_post, tot_pre = F(0), F(0)
+                for (po, pi, d) in geo[p]:
+                    arr = [(num(pre_hist[s - d][(b, *pi)]) if s - d >= 0 else F(0)) for s in range(t + 1)]
+                    pst = [num(post_hist[s][(b, *po)]) for s in range(t + 1)]
+                    if trainer_kind == "triplet":
+                        xa = trace_closed(arr, K(math.exp(-dt / HP["tc_pre"])), K(abs(lr_post)), mode)
+                        ya = trace_closed(pst, K(math.exp(-dt / HP["tc_post"])), K(abs(lr_pre)), mode)
+                        yb = trace_closed(pst[:-1], K(math.exp(-dt / 40.0)), K(abs(0.3 / lr_post)), mode) if t > 0 else F(0)
+                        xb = trace_closed(arr[:-1], K(math.exp(-dt / 30.0)), K(abs(0.2 / lr_pre)), mode) if t > 0 else F(0)
+                        tot_post = T.add(tot_post, T.mul(T.mul(pst[-1], T.add(1, yb)), xa))
+                        tot_pre = T.add(tot_pre, T.mul(T.mul(arr[-1], T.add(1, xb)), ya))
+                    else:
+                        xpre = trace_closed(arr, a_pre, A_pre, mode)
+                        xpost = trace_closed(pst, a_post, A_post, mode)
+                        tot_post = T.add(tot_post, T.mul(pst[-1], xpre))
+                        tot_pre = T.add(tot_pre, T.mul(arr[-1], xpost))
+                cpost[b, p], cpre[b, p] = tot_post, tot_pre
         if trainer_kind == "mstdpet":
             az, sz = K(math.exp(-dt / 10.0)), K(1 / 10.0)
             for k in cpost:
@@ -218,11 +234,10 @@ def h_stdp(e, cfg):
             ga = e.read(gp) if gp is not None else zero
             gb = e.read(gn) if gn is not None else zero
             for idx in np.ndindex(*wsh):
-                o, i = idx if kind != "direct" else (idx[0], idx[0])
                 if cfg.get("bounded"):      # accumulators are not cleared between steps: compare the running sums
-                    rule = T.sub(sum_(pos_acc[(o, i)]), sum_(neg_acc[(o, i)]))
+                    rule = T.sub(sum_(pos_acc[idx]), sum_(neg_acc[idx]))
                 else:
-                    ps, ng = step_parts[(o, i)]
+                    ps, ng = step_parts[idx]
                     rule = T.sub(ps if ps is not None else F(0), ng if ng is not None else F(0))
                 e.oblige("split:net-equals-signed-rule", T.same(T.sub(ga[idx], gb[idx]), rule), step=t, elem=list(idx))
             if not cfg.get("bounded"):
@@ -236,8 +251,8 @@ def h_stdp(e, cfg):
 
     def as_arr(d):
         a = np.empty(wshape, dtype=object)
-        for (o, i), parts in d.items():
-            a[(o, i) if kind != "direct" else (i,)] = sum_(parts)
+        for p, parts in d.items():
+            a[p] = sum_(parts)
         return a
     any_pos, any_neg = any(pos_acc.values()), any(neg_acc.values())
     e.oblige("accumulated:pos-present", (gp is not None) == any_pos)
@@ -249,19 +264,18 @@ def h_stdp(e, cfg):
     conn.update()
     exp = np.empty(wshape, dtype=object)
     for idx in np.ndindex(*wshape):
-        o, i = idx if kind != "direct" else (idx[0], idx[0])
         v = w0[idx]
         if cfg.get("bounded"):
             if any_pos:
-                v = T.add(v, T.mul(T.sub(K(3.0), w0[idx]), sum_(pos_acc[(o, i)])))
+                v = T.add(v, T.mul(T.sub(K(3.0), w0[idx]), sum_(pos_acc[idx])))
             if any_neg:
-                v = T.sub(v, T.mul(T.sub(w0[idx], K(-3.0)), sum_(neg_acc[(o, i)])))
+                v = T.sub(v, T.mul(T.sub(w0[idx], K(-3.0)), sum_(neg_acc[idx])))
         else:
             if any_pos:
-                v = T.add(v, sum_(pos_acc[(o, i)]))
+                v = T.add(v, sum_(pos_acc[idx]))
             if any_neg:
-                v = T.sub(v, sum_(neg_acc[(o, i)]))
-        if kind == "lateral" and o == i:
+                v = T.sub(v, sum_(neg_acc[idx]))
+        if kind == "lateral" and idx[0] == idx[1]:
             v = F(0)
         exp[idx] = v
     e.oblige_eq("weight-after-update", conn.weight, exp, split=True)
@@ -293,12 +307,32 @@ def checks(tier):
                                     if dly != "none":
                                         c.update(maxdelay=2 * dt, delaysteps=[[0, 1], [2, 1]], delayed=(dly == "delayed"))
                                     cfgs.append(c)
-    return [Check("pair_sums", h_stdp, cfgs, opts={"max_paths": 5000, "query_timeout_ms": 120000}, timeout_s=1800)]
+    # convolutional cells: a weight is shared by every output location (sum over the receptive fields)
+    conv = []
+    for trainer in ("stdp", "triplet", "mstdp", "mstdpet"):
+        for mode in (("cumulative", "nearest") if (th or trainer == "stdp") else ("cumulative",)):
+            for signs in (tuple(SIGNS) if th else (("hebbian", "depressive") if trainer == "stdp" else ("hebbian",))):
+                for geom in (((3, 3, 2, 2, 1), (2, 3, 1, 2, 2), (3, 2, 2, 1, 2)) if th else ((3, 3, 2, 2, 1), (2, 3, 1, 2, 2))):
+                    for dly in ("none", "delayed", "frozen"):
+                        if trainer == "mstdpet" and dly == "delayed":
+                            continue
+                        if not th and dly == "frozen" and trainer != "stdp":
+                            continue
+                        for B, red in (((1, "sum"), (2, "mean")) if th else ((2, "mean"),)):
+                            c = dict(trainer=trainer, trace=mode, signs=signs, cell="conv", geom=geom, B=B, reduction=red, dt=1.3, T=(4 if th else 3),
+                                     signal=("-" if trainer in ("stdp", "triplet") else "scalar+"))
+                            if dly != "none":
+                                H, W, kh, kw, Fn = geom
+                                steps = [[[[(f + 2 * i + j) % 3 for j in range(kw)] for i in range(kh)]] for f in range(Fn)]
+                                c.update(maxdelay=2 * 1.3, delaysteps=steps, delayed=(dly == "delayed"))
+                            conv.append(c)
+    return [Check("conv_pair_sums", h_stdp, conv, opts={"max_paths": 5000, "query_timeout_ms": 120000}, timeout_s=1800),
+            Check("pair_sums", h_stdp, cfgs, opts={"max_paths": 5000, "query_timeout_ms": 120000}, timeout_s=1800)]
 
 
 BOUNDS = {
-    "quick": {"trainers": ["STDP", "TripletSTDP", "MSTDP", "MSTDPET"], "trace modes": 2, "sign modes": 4, "cells": ["dense 2x2", "direct 2", "lateral 2"], "T": 4, "batch": 2,
+    "quick": {"trainers": ["STDP", "TripletSTDP", "MSTDP", "MSTDPET"], "trace modes": 2, "sign modes": 4, "cells": ["dense 2x2", "direct 2", "lateral 2", "Conv2D 3x3 input / 2x2 kernel / 1 filter and 2x3 input / 1x2 kernel / 2 filters (T=3)"], "T": 4, "batch": 2,
               "delays": "none / per-synapse grid delays {0,1,2} steps with delayed=True / delayed=False", "signal": "scalar +/-, per-sample symbolic tensor (forked on sign)", "dt": 1.3},
     "thorough": {"T": 6, "batch": [1, 2], "reductions": ["sum", "mean"], "dt": [1.0, 1.3], "all cells x all sign modes x all delay modes": True},
 }
-OUTSIDE = ["conv cells (receptive-field reshaping of conv is covered by C05)", "off-grid delays", "time constants other than those used", "post spikes are scripted (any history), not produced by neuron dynamics"]
+OUTSIDE = ["conv cells with stride/padding/dilation other than the defaults or more than one input channel", "off-grid delays", "time constants other than those used", "post spikes are scripted (any history), not produced by neuron dynamics"]
